@@ -3535,6 +3535,11 @@ namespace awkward {
                 current_error_ = util::ForthError::division_by_zero;
                 return;
               }
+              if (pair[1] == -1) {
+                // MIN / -1 is a hardware trap; x / -1 is the (wrapping) negation of x.
+                pair[0] = -pair[0];
+                break;
+              }
               // Forth (gforth, at least) does floor division; C++ does integer division.
               // This makes a difference for negative numerator or denominator.
               T tmp = pair[0] / pair[1];
@@ -3552,6 +3557,11 @@ namespace awkward {
                 current_error_ = util::ForthError::division_by_zero;
                 return;
               }
+              if (pair[1] == -1) {
+                // MIN % -1 is a hardware trap; x mod -1 is always 0.
+                pair[0] = 0;
+                break;
+              }
               // Forth (gforth, at least) does modulo; C++ does remainder.
               // This makes a difference for negative numerator or denominator.
               pair[0] = (pair[1] + (pair[0] % pair[1])) % pair[1];
@@ -3568,6 +3578,12 @@ namespace awkward {
               if (two == 0) {
                 current_error_ = util::ForthError::division_by_zero;
                 return;
+              }
+              if (two == -1) {
+                // MIN / -1 and MIN % -1 are hardware traps.
+                stack_buffer_[stack_depth_ - 1] = -one;
+                stack_buffer_[stack_depth_ - 2] = 0;
+                break;
               }
               // See notes on division and modulo/remainder above.
               T tmp = one / two;
